@@ -22,8 +22,9 @@ theorem ecn_c : (TcpConst.ipTosCe ||| TcpConst.ipTosEct) = 3 := by decide
 theorem ecn_bits (e : Nat) (h : e < 256) : ((e &&& (TcpConst.ipTosCe ||| TcpConst.ipTosEct) ≠ 0) ↔ e % 4 ≠ 0) := by
   rw [ecn_c]; exact ecn_bits3 e h
 
-def hdrQuirks (f : Fields) : List Quirk :=
-  (if f.ip.v6 then ipQuirksV6 f.ip else ipQuirksV4 f.ip) ++ tcpQuirks f.tcp
+def ipQuirks (f : Fields) : List Quirk := if f.ip.v6 then ipQuirksV6 f.ip else ipQuirksV4 f.ip
+
+def hdrQuirks (f : Fields) : List Quirk := ipQuirks f ++ tcpQuirks (ipQuirks f) f.tcp
 
 theorem mem_ite' {α : Type} (c : Prop) [Decidable c] (a : α) (l1 l2 : List α) :
     a ∈ (if c then l1 else l2) ↔ (c ∧ a ∈ l1) ∨ (¬ c ∧ a ∈ l2) := by
@@ -40,9 +41,9 @@ theorem hdr_mem (f : Fields) (hwf : f.WF) (area : Option Area) (hrst : ¬ Rst f)
   unfold Rst at hrst
   cases hv : f.ip.v6 <;> cases q <;>
     simp [optionQuirks] at hq hq' <;>
-    simp [hdrQuirks, ipQuirksV4, ipQuirksV6, tcpQuirks, QuirkCond, hv, hb, hi, hec, hrst,
+    simp [hdrQuirks, ipQuirks, ipQuirksV4, ipQuirksV6, tcpQuirks, QuirkCond, hv, hb, hi, hec, hrst,
       Df, Mbz, Ece, Cwr, Ack, Urg, Psh, ipEcn, mem_ite']
-  all_goals exact And.comm
+  all_goals first | exact And.comm | (by_cases h : f.ip.ecn % 4 = 0 <;> simp [h])
 
 def ipQ4B (ipecn mbz df idz : Bool) : List Quirk :=
   (if ipecn then [.ecn] else []) ++ (if mbz then [.mustBeZero] else []) ++
@@ -66,38 +67,39 @@ theorem ipQuirksV4_eq (ip : IpHdr) : ipQuirksV4 ip =
 theorem ipQuirksV6_eq (ip : IpHdr) : ipQuirksV6 ip =
     ipQ6B (decide (ip.flow ≠ 0)) (decide (ip.ecn &&& (TcpConst.ipTosCe ||| TcpConst.ipTosEct) ≠ 0)) := by
   simp [ipQuirksV6, ipQ6B]
-theorem tcpQuirks_eq (t : TcpHdr) : tcpQuirks t =
-    tcpQB (decide (t.flags &&& (ECE ||| CWR) ≠ 0)) (decide (t.seq = 0)) (decide (t.flags &&& ACK = ACK)) (decide (t.ack = 0))
+theorem tcpQuirks_eq (q0 : List Quirk) (t : TcpHdr) : tcpQuirks q0 t =
+    tcpQB (decide (t.flags &&& (ECE ||| CWR) ≠ 0) && !q0.contains .ecn) (decide (t.seq = 0)) (decide (t.flags &&& ACK = ACK)) (decide (t.ack = 0))
       (decide (t.flags &&& RST = 0)) (decide (t.flags &&& URG = URG)) (decide (t.urg = 0)) (decide (t.flags &&& PSH = PSH)) := by
   simp [tcpQuirks, tcpQB]
 
-theorem hdr_nodup (f : Fields) (hwf : f.WF) (he : ¬ Huginn.KF.C03.ecnTwice f) : (hdrQuirks f).Nodup := by
-  unfold Fields.WF at hwf
-  obtain ⟨_, _, hecn, hfl, _, _, _, _, _, _, _, _, _, htf, _⟩ := hwf
-  have hb := flag_bits f.tcp.flags htf
-  have hecn' : f.ip.ecn < 256 := by split at hecn <;> omega
-  have hec := ecn_bits f.ip.ecn hecn'
-  unfold Huginn.KF.C03.ecnTwice ipEcn Ece Cwr at he
-  have hside : (decide (f.ip.ecn &&& (TcpConst.ipTosCe ||| TcpConst.ipTosEct) ≠ 0) &&
-      decide (f.tcp.flags &&& (ECE ||| CWR) ≠ 0)) = false := by
-    rw [Bool.and_eq_false_iff]
-    simp only [decide_eq_false_iff_not, hec, hb.1]
-    by_cases h : f.ip.ecn % 4 ≠ 0
-    · right; intro h2; exact he ⟨h, h2⟩
-    · left; exact h
+/-- `quirks.contains(&Quirk::Ecn)` on the IP-level quirks is the IP ECN test -/
+theorem ip_contains_ecn (f : Fields) :
+    (ipQuirks f).contains Quirk.ecn = decide (f.ip.ecn &&& (TcpConst.ipTosCe ||| TcpConst.ipTosEct) ≠ 0) := by
+  have h4 : ∀ a b c d : Bool, (ipQ4B a b c d).contains Quirk.ecn = a := by decide
+  have h6 : ∀ a b : Bool, (ipQ6B a b).contains Quirk.ecn = b := by decide
+  unfold ipQuirks
+  cases f.ip.v6
+  · simp only [Bool.false_eq_true, if_false]; rw [ipQuirksV4_eq, h4]
+  · simp only [if_true]; rw [ipQuirksV6_eq, h6]
+
+/-- the header quirks never repeat (the TCP-level `ecn` is pushed only when the IP level did not) -/
+theorem hdr_nodup (f : Fields) : (hdrQuirks f).Nodup := by
+  have hside : ∀ a t : Bool, (a && (t && !a)) = false := by decide
   unfold hdrQuirks
+  rw [tcpQuirks_eq, ip_contains_ecn]
+  unfold ipQuirks
   cases hv : f.ip.v6
   · simp only [Bool.false_eq_true, if_false]
-    rw [ipQuirksV4_eq, tcpQuirks_eq]
-    exact nodupB4 _ _ _ _ _ _ _ _ _ _ _ _ hside
+    rw [ipQuirksV4_eq]
+    exact nodupB4 _ _ _ _ _ _ _ _ _ _ _ _ (hside _ _)
   · simp only [if_true]
-    rw [ipQuirksV6_eq, tcpQuirks_eq]
-    exact nodupB6 _ _ _ _ _ _ _ _ _ _ hside
+    rw [ipQuirksV6_eq]
+    exact nodupB6 _ _ _ _ _ _ _ _ _ _ (hside _ _)
 
 /-- option-derived quirks and `bad` never come from the headers -/
 theorem hdr_not_opt (f : Fields) (q : Quirk) (hq : q ∈ optionQuirks ∨ q = .optBad) : q ∉ hdrQuirks f := by
   cases hv : f.ip.v6 <;> cases q <;> simp [optionQuirks] at hq <;>
-    simp [hdrQuirks, ipQuirksV4, ipQuirksV6, tcpQuirks, hv, mem_ite']
+    simp [hdrQuirks, ipQuirks, ipQuirksV4, ipQuirksV6, tcpQuirks, hv, mem_ite']
 
 /-! ### option quirks -/
 
